@@ -6,6 +6,7 @@ import (
 	"os"
 	"path/filepath"
 	"regexp"
+	"sort"
 	"strings"
 	"time"
 
@@ -49,7 +50,8 @@ func observeCheck(knut, dir string, id int, j *kj.Journal, cs map[string]any) {
 	if id%3 == 0 {
 		lo, hi := journalSpan(j)
 		for _, argv := range [][]string{{"balance", "--color=false"}, {"balance", "--color=false", "--to", ymd((lo + hi) / 2), "--days"}, {"print"}, {"balance", "--color=false", "--from", ymd(hi + 1)},
-			{"register", "--color=false"}, {"register", "--color=false", "-m", "0,^(Expenses|Assets)"}, {"balance", "--color=false", "-m", "0,."}} {
+			{"register", "--color=false"}, {"register", "--color=false", "-m", "0,^(Expenses|Assets)"}, {"balance", "--color=false", "-m", "0,."},
+			{"balance", "--color=false", "-v", "CHF"}, {"register", "--color=false", "-v", "CHF"}, {"transcode", "-v", "CHF"}, {"portfolio", "weights", "-v", "CHF"}} {
 			rr := core.Run(core.RunOpts{Timeout: 30 * time.Second}, knut, append(argv, file)...)
 			reports = append(reports, rr.Exit == 0)
 		}
@@ -82,6 +84,30 @@ func C04(c *core.Ctx) {
 				case z > hi:
 					js[i].Dirs[k].Z = z + 110000
 				}
+			}
+		}
+		if (i+1)%3 == 0 {
+			// the journals that are also run through the report commands get prices for every commodity (before the
+			// first day, and a change in the middle): the valued reports have to proceed as well
+			lo, hi := journalSpan(js[i])
+			cset := map[string]bool{}
+			for _, d := range js[i].Dirs {
+				for _, b := range d.Bk {
+					cset[b.C] = true
+				}
+				for _, b := range d.Bal {
+					cset[b.C] = true
+				}
+			}
+			var cl []string
+			for cm := range cset {
+				if cm != "CHF" {
+					cl = append(cl, cm)
+				}
+			}
+			sort.Strings(cl)
+			for k, cm := range cl {
+				js[i].Dirs = append(js[i].Dirs, kj.Dir{K: "price", Z: lo - 1, C: cm, P: (2 + k) * kj.PS, T: "CHF"}, kj.Dir{K: "price", Z: (lo + hi) / 2, C: cm, P: (3 + k) * kj.PS, T: "CHF"})
 			}
 		}
 		cases[i] = js[i].Case(i+1, "check", nil)
